@@ -522,6 +522,7 @@ def run(ctx):
     lap("splitter")
     for case, o in list(zip(cases, outs))[:3]:
         res.sample({"family": case["family"], "format": o["fmt"], "rows": o["n"], "first": g4.plain(o["rows"][0]) if o["rows"] else None})
+    __import__("corr.fn_common", fromlist=["run_fn"]).run_fn(ctx, res, "C09")  # regenerated functions vs the real ones (tools/py2lean.py)
     return res
 
 
